@@ -311,6 +311,8 @@ def parseElispEscape (fuel : Nat) (acc : List UInt8) : P (List UInt8 × ElispEsc
   else if 48 ≤ c && c ≤ 55 then do
     let n ← decodeElispOctalEscape fuel (c.toNat - 48)
     elispCharEscape acc n
+  -- a continuation byte cannot follow the (ASCII) backslash in valid UTF-8
+  else if 128 ≤ c && c ≤ 191 then errAt .invalidUnicodeCodePoint
   else pure (acc ++ [c], .indeterminate)
 
 /-- Result of `parse_elisp_str`. -/
